@@ -189,6 +189,61 @@ def oracle_values(ctx):
                         vals[('con', form, ell, 0)] = sp.poly_constrained_relaxation(p, g, [], form=form, p=0, q=1, ell=ell).solve(verbose=False)
                     except Exception as e:
                         vals[('con', form, ell, 0)] = ('error', repr(e)[:60])
+            if trial < 2:
+                # higher level of the polynomial hierarchy on a polynomial with a positive minimum: 3 + c x + x^2 (+ x^4)
+                xq = so.standard_poly_monomials(1)
+                cq_ = float(rng.choice([1, -1, 2]))
+                pq_ = 3 + cq_ * xq[0] + xq[0] ** 2 + (xq[0] ** 4 if trial == 1 else 0)
+                ubq = min(float(pq_(np.array([t_]))) for t_ in np.linspace(-2, 2, 801))
+                vq = {}
+                for form in ('primal', 'dual'):
+                    for ell_ in ((1, 2) if trial == 0 else (1,)):
+                        try:
+                            vq[(form, ell_)] = sp.poly_relaxation(pq_, form=form, poly_ell=ell_).solve(verbose=False)
+                        except Exception as e:
+                            vq[(form, ell_)] = ('error', repr(e)[:60])
+                ctx.evaluations += 4
+                for key_, (st_, val_) in vq.items():
+                    if st_ == 'solved' and isinstance(val_, float) and math.isfinite(val_) and val_ > ubq + 1e-4 * (1 + abs(ubq)):
+                        return ('%s value %r of poly_relaxation(poly_ell=%d) of %s exceeds its minimum (%r)' % (key_[0], val_, key_[1], c12.canon(pq_), ubq),
+                                {'p': str(c12.canon(pq_))})
+                for ell_ in ((1, 2) if trial == 0 else (1,)):
+                    a_, b_ = vq[('primal', ell_)], vq[('dual', ell_)]
+                    if a_[0] == b_[0] == 'solved' and isinstance(a_[1], float) and isinstance(b_[1], float) and math.isfinite(a_[1]) and math.isfinite(b_[1]) \
+                            and abs(a_[1] - b_[1]) > 1e-3 * (1 + abs(a_[1])):
+                        return ('poly_relaxation(poly_ell=%d) of %s: primal %r and dual %r differ' % (ell_, c12.canon(pq_), a_[1], b_[1]), {'p': str(c12.canon(pq_))})
+                # conditional primal/dual over a PolyDomain whose bound is active, with a negative even monomial and an odd term
+                k2_, k1_ = (3.0, 2.0) if trial == 0 else (float(rng.choice([3, 2])), float(rng.choice([2, 1])))
+                pc_ = xq[0] ** 4 - k2_ * xq[0] ** 2 - k1_ * xq[0]
+                with warnings.catch_warnings():
+                    warnings.simplefilter('ignore')
+                    Xc = sp.infer_domain(pc_, [1 - xq[0] ** 2], [])
+                ubc_ = min(float(pc_(np.array([t_]))) for t_ in np.linspace(-1, 1, 401))
+                vc = {}
+                for form in ('primal', 'dual'):
+                    try:
+                        vc[(form, 'constrained')] = sp.poly_constrained_relaxation(pc_, [1 - xq[0] ** 2], [], Xc, form=form, p=0, q=1, ell=0).solve(verbose=False)
+                        vc[(form, 'X only')] = sp.poly_constrained_relaxation(pc_, [], [], Xc, form=form, p=0, q=1, ell=0).solve(verbose=False)
+                        vc[(form, 'poly_ell=1')] = sp.poly_relaxation(pc_, X=Xc, form=form, poly_ell=1).solve(verbose=False)
+                    except Exception as e:
+                        vc[(form, 'error')] = ('error', repr(e)[:60])
+                ctx.evaluations += 4
+                for key_, (st_, val_) in vc.items():
+                    if st_ == 'solved' and isinstance(val_, float) and math.isfinite(val_) and val_ > ubc_ + 1e-4 * (1 + abs(ubc_)):
+                        return ('%s value %r (%s) of %s over |x| <= 1 exceeds p at a feasible point (%r)' % (key_[0], val_, key_[1], c12.canon(pc_), ubc_),
+                                {'p': str(c12.canon(pc_))})
+                # g = -p written AFTER p's signomial representative was computed is the polynomial -p
+                po_ = xq[0] ** 4 + float(rng.choice([1, 2])) * xq[0] ** 3 - xq[0] + 2
+                _ = po_.sig_rep
+                gneg = -po_
+                fresh = so.Polynomial(np.asarray(po_.alpha, dtype=float).copy(), -np.asarray(po_.c, dtype=float))
+                def rows_of(sr_):
+                    cs_ = [float(ci.value) if hasattr(ci, 'value') else float(ci) for ci in np.asarray(sr_.c, dtype=object).ravel().tolist()]
+                    return sorted((tuple(r_), c_) for r_, c_ in zip(np.asarray(sr_.alpha, dtype=float).tolist(), cs_))
+                sr1, sr2 = gneg.sig_rep[0], fresh.sig_rep[0]
+                if rows_of(sr1) != rows_of(sr2):
+                    return ('the signomial representative of -p (p = %s, p.sig_rep computed first) is %s; that of a freshly built -p is %s'
+                            % (c12.canon(po_), rows_of(sr1), rows_of(sr2)), {'p': str(c12.canon(po_))})
             # multipliers that are polynomials (p = 1) on problems whose minimiser has a negative coordinate
             if trial < 4:
                 xo = so.standard_poly_monomials(2 if trial >= 2 else 1)
